@@ -29,7 +29,7 @@ def triples():
 
 def gen_cases(tier, seed):
     rng = random.Random(seed * 104729 + 2)
-    k = 2 if tier == 'quick' else 12
+    k = 2 if tier == 'quick' else 40
     cases = []
     for (v, lv, m) in triples():
         for _ in range(k):
@@ -63,7 +63,7 @@ def gen_cases(tier, seed):
                 kw['mode'] = 'hanzi'
             cases.append(common.mk(content, tag='triple', want=[v, lv, m], **kw))
     # automatically chosen symbols
-    cases += common.random_cases(rng, 600 if tier == 'quick' else 6000, heavy=True)
+    cases += common.random_cases(rng, 600 if tier == 'quick' else 30000, heavy=True)
     rng.shuffle(cases)
     return cases
 
